@@ -289,3 +289,47 @@ func ZZ_C16_noPanicCanaryNodeUnknownToTheReplicaSetController() {
 	nondet.Assert("C16.unknown-canary-node.other-node-untouched", c.Count("delete", "Pod") == 0)
 	nondet.Reach("C16.unknown-canary-node.canary-synced", which == rsNew.Name)
 }
+
+// ZZ_C16_noPanicSpecReplacedAfterTheFirstSync: "reconciliation returns a result or an error but never
+// crashes" on a spec the API server stores but defaulting has not filled (yet, or again): the user
+// re-applies the original manifest over a running ExtendedDaemonSet, so a field defaulting had filled —
+// the reconcile frequency, a rolling-update field, the whole strategy, a canary block left partial — is
+// absent again, and a replica set that has been fully synced before (its status carries the
+// LastFullSync condition, recent or old, and counters) is synced before the ExtendedDaemonSet
+// controller has re-defaulted the parent.  The sync ends, writes no pod, and asks to be run again.
+func ZZ_C16_noPanicSpecReplacedAfterTheFirstSync() {
+	c, ds, rsNew, _ := zzStore(2)
+	ds.Status.ActiveReplicaSet = rsNew.Name
+	switch nondet.String("absentAgain", "reconcileFrequency", "maxUnavailable", "slowStartIntervalDuration", "whole-strategy", "partial-canary-block", "template-name-set") {
+	case "reconcileFrequency":
+		ds.Spec.Strategy.ReconcileFrequency = nil
+	case "maxUnavailable":
+		ds.Spec.Strategy.RollingUpdate.MaxUnavailable = nil
+	case "slowStartIntervalDuration":
+		ds.Spec.Strategy.RollingUpdate.SlowStartIntervalDuration = nil
+	case "whole-strategy":
+		ds.Spec.Strategy = datadoghqv1alpha1.ExtendedDaemonSetSpecStrategy{}
+	case "partial-canary-block":
+		ds.Spec.Strategy.Canary = &datadoghqv1alpha1.ExtendedDaemonSetSpecStrategyCanary{}
+	default:
+		ds.Spec.Template.Name = "fixed-name"
+	}
+	nondet.Assert("C16.spec-replaced.not-defaulted", !datadoghqv1alpha1.IsDefaultedExtendedDaemonSet(ds))
+	switch nondet.String("lastFullSync", "never", "just-now", "an-hour-ago") {
+	case "just-now":
+		at := metav1.NewTime(nondet.Base().Add(-1e9))
+		rsNew.Status.Conditions = append(rsNew.Status.Conditions, datadoghqv1alpha1.ExtendedDaemonSetReplicaSetCondition{Type: datadoghqv1alpha1.ConditionTypeLastFullSync, Status: corev1.ConditionTrue, LastTransitionTime: at, LastUpdateTime: at})
+	case "an-hour-ago":
+		at := metav1.NewTime(nondet.Base().Add(-3600 * 1e9))
+		rsNew.Status.Conditions = append(rsNew.Status.Conditions, datadoghqv1alpha1.ExtendedDaemonSetReplicaSetCondition{Type: datadoghqv1alpha1.ConditionTypeLastFullSync, Status: corev1.ConditionTrue, LastTransitionTime: at, LastUpdateTime: at})
+	}
+	rsNew.Status.Status = "active"
+	rsNew.Status.Desired, rsNew.Status.Current, rsNew.Status.Ready, rsNew.Status.Available = 2, 1, 1, 1
+	c.Pods = append(c.Pods, zzPod("pod-node0", zzNodeName(0), rsNew.Name, zzHashNew, 0, corev1.PodRunning, true, nondet.Base().Add(-3600*1e9)))
+	res, err := zzReconcile(zzReconciler(c, nondet.Bool("nodeAffinitySupported")), zzNS, rsNew.Name)
+	nondet.Observe("error", err != nil)
+	// nothing is rolled out from a spec that is not complete
+	nondet.Assert("C16.spec-replaced.no-pod-write", c.Count("create", "Pod") == 0 && c.Count("delete", "Pod") == 0)
+	// and the replica set comes back (an error is retried by the work queue)
+	nondet.Assert("C16.spec-replaced.retried", err != nil || res.Requeue || res.RequeueAfter > 0)
+}
